@@ -588,13 +588,41 @@ pub fn judge_message(
         Expect::AnyRcode(_) => "zero_questions",
         Expect::Resolve(_) => "resolve",
     }));
-    if got.len() > 1 {
+    // Over TCP a length prefix smaller than what follows it makes the rest the
+    // start of a *second* framed message (RFC 7766 framing).  This server reads one
+    // message per connection and ignores the rest; a server that serves every
+    // message of a connection answers those too.  Both satisfy "one reply per
+    // message": replies beyond the first are accepted - only their framing is
+    // judged (above) - when the client did send enough for another message
+    // (a prefix and an ID).
+    let leftover = if m.proto == "tcp" {
+        let payload = unhex(&m.bytes_hex);
+        let prefix = m.prefix.unwrap_or_else(|| u16::try_from(payload.len()).unwrap_or(u16::MAX));
+        let mut framed = prefix.to_be_bytes().to_vec();
+        framed.extend_from_slice(&payload);
+        if let Some(cut) = m.cut_at {
+            framed.truncate(cut.min(framed.len()));
+        }
+        framed.len().saturating_sub(2 + usize::from(prefix))
+    } else {
+        0
+    };
+    let further_messages_possible = leftover / 4;
+    if got.len() > 1 + further_messages_possible {
         vs.push(Violation::new("c09.more_than_one_reply").detail(detail("more than one reply to one message")));
         return;
+    }
+    if got.len() > 1 {
+        bump(stats, "probe.replies_to_further_framed_messages_of_one_connection");
     }
     let reply = got.first();
     match (&expect, reply) {
         (Expect::NoReply, None) | (Expect::NoReplyOrFormErr(_), None) => return,
+        (Expect::NoReply, Some(_)) if further_messages_possible > 0 && view.is_some() => {
+            // the first framed message deserves no reply; what came belongs to a later one
+            bump(stats, "probe.replies_to_further_framed_messages_of_one_connection");
+            return;
+        }
         (Expect::NoReply, Some(_)) => {
             vs.push(Violation::new("c09.reply_to_unanswerable").detail(detail("a reply to a response-flagged or too-short message")));
             return;
